@@ -205,7 +205,7 @@ STORAGE_PROPS = {
                 rel=st(fields=["verify", "success"], ops=["postProof"], opfields={"block": ["files", "files2", "proofs", "bank"], "attest": ["proofs"], "postFile": ["files", "proofs"]})),
     "C02": dict(main="proofs", monitor=mon_storage.c02, facts=facts.gen_pure_fns,
                 rel=st(fields=["verify", "challenge"], ops=["postProof"], opfields={"block": ["files", "files2", "proofs", "providers"]})),
-    "C03": dict(main="proofs", monitor=mon_storage.c03,
+    "C03": dict(main="proofs", monitor=mon_storage.c03, facts=facts.gen_pure_fns,
                 rel=st(opfields={"block": ["files", "files2", "proofs", "providers", "bank", "panic"]})),
     "C04": dict(main="payments", monitor=mon_storage.c04, facts=facts.gen_pure_fns,
                 rel=st(ops=["buyStorage"], opfields={"postFile": ["bank", "gauges", "outcome"]})),
@@ -213,7 +213,7 @@ STORAGE_PROPS = {
                 rel=st(fields=["panic"], ops=["block"], opfields={"postFile": ["outcome", "files"]})),
     "C07": dict(main="plans", monitor=mon_storage.c07,
                 rel=st(fields=["payinfo"], ops=["postFile", "deleteFile"], opfields={"buyStorage": ["outcome"], "block": ["files", "files2"]})),
-    "C12": dict(main="payments", monitor=mon_storage.C12, stateful=True,
+    "C12": dict(main="payments", monitor=mon_storage.C12, stateful=True, facts=facts.gen_pure_fns,
                 rel=st(fields=["gauges"], opfields={"block": ["bank", "panic"], "postFile": ["bank"], "buyStorage": ["bank"]})),
     "C14": dict(main="forms", monitor=mon_storage.c14,
                 rel=st(fields=["attests", "reports"], ops=["attest", "report", "requestAttest", "requestReport"])),
